@@ -1,4 +1,6 @@
--- stub: component `tok` not built yet
+import Driver.Tok
+open Driver
+
 def main : IO UInt32 := do
-  IO.eprintln "driver-tok: not implemented"
-  return 2
+  runComponent Tok.init Tok.step
+  return 0
